@@ -1039,6 +1039,9 @@ class Wtp:
         need_pre_expand=excluded.need_pre_expand, model=excluded.model""",
             (title, namespace_id, body, redirect_to, need_pre_expand, model),
         )
+        # Lookups are cached; a cached miss or an older version of this page
+        # must not outlive the write
+        self.get_page.cache_clear()
 
     def analyze_templates(
         self,
